@@ -21,6 +21,11 @@ func init() {
 }
 
 func c11(c *Ctx) {
+	c.OnlyInScope("fuse-close/shm-locks-only-by-the-shm-handle", []string{"litefs", "fuse", "http"}, c.P.Calls("litefs.(*DB).UnlockSHM"), []string{pat("fuse.(*SHMHandle).Flush")}, 1,
+		"an owner's wal-index locks (WRITE, CKPT, RECOVER, READ0-4, DMS) are dropped on close only by the flush of a shared-memory file handle",
+		"POSIX drops the locks of the file whose descriptor is closed: a process that opens and closes the database file once more while its connection is inside a WAL transaction keeps its wal-index locks - released with the database file's, LiteFS's internal writer and other connections get WRITE/CKPT in the middle of the transaction")
+	c.OnlyInScope("fuse-close/database-locks-only-by-the-database-handle", []string{"litefs", "fuse", "http"}, c.P.Calls("litefs.(*DB).UnlockDatabase"), []string{pat("fuse.(*DatabaseHandle).Flush")}, 1,
+		"... and the database-file locks (PENDING, RESERVED, SHARED) only by the flush of a database file handle", "")
 	for _, fn := range []string{"litefs.(*DB).WriteSnapshotTo", "litefs.(*DB).Export", "litefs.(*DB).TryAcquireWriteLock"} {
 		short := fn[strings.LastIndex(fn, ".")+1:]
 		c.ExpectAll("private-guards/"+short, c.CallArgs(fn, c.P.PlainCalls("litefs.(*GuardSet).Unlock", "litefs.(*RWMutexGuard).RLock", "litefs.(*RWMutexGuard).TryLock"), 0), `.*litefs\.\(\*DB\)\.newGuardSet\(p0, 0\).*`, 1,
